@@ -460,6 +460,10 @@ func longHistory(rng *rand.Rand, out *Out) {
 		finish("late-ticks-behind", r, refused, err)
 	}
 
+	// receivers whose pool holds other versions of the user blocks (other acknowledged momentum, near or far), blocks on top
+	// of them and blocks the producer never saw (poolvar.go); their twin is the forge
+	poolSchedules(rng, out, chainD, chainT, refDump, fr, "long-history", 24, 6, 1, rng.Intn(2) == 0)
+
 	// the clause itself: whatever the schedule, the same deliveries succeed and the same frontier is reached
 	twin := results[0]
 	for _, x := range results[1:] {
